@@ -7,12 +7,16 @@
                                               L [A 0; B pkt] | L [A 1; A errcode] | L [A 2]
                  | L [A 1; B pkt; B dgram]   send_packet(pkt); dgram = a fresh serializer's output for pkt
                  | L [A 3]                   recv_packet()
+                 | L [A 5; B pkt; B dgram]   send_packet(obj) where obj is ONE mutable object of the case, updated in place to pkt
+                 | L [A 6]                   recv_packet() in a task that is cancelled one loop iteration later (async endpoints)
+                 | L [A 7]                   an asynchronous socket error is reported to the asyncio protocol (error_received)
      kind 1  one-shot interface derived from read_until:  cfg = L [B sep; A limit; A keep_end; A decmode; A conv]
      kind 2  one-shot interface derived from read_exactly: cfg = L [A size; A decmode; A conv]
              op  = L [A 0; B dgram] | L [A 1; B payload] | L [A 3]
              decmode 0 identity | 1 ascii (DeserializeError on a byte >= 128); conv 1: converter rejecting "!..." packets
    output = L [per op: L []  (arrive) | L [L [A 4; B dgram]] (send: what the peer receives)
-                     | L [L [A 0; B pkt]] | L [L [A 1; A errcode]] | L [L [A 2]] | L [L [A 3]] (recv; 3 = nothing queued)] *)
+                     | L [L [A 0; B pkt]] | L [L [A 1; A errcode]] | L [L [A 2]] | L [L [A 3]] (recv; 3 = nothing queued)
+                     | L [L [A 5]] (cancelled, nothing consumed) | L [L [A 6; A 0]] (the socket error, at its position)] *)
 From EN Require Import Lib.Bytes Lib.Sx Frame.Framer Frame.ReadUntil Frame.OneShot IO.Datagram Gen.ParamsC05.
 
 Definition err_code (e : err) : Z :=
@@ -27,6 +31,8 @@ Definition rres_sx (r : rres bytes) : sx :=
   | RParseError e => L [A 1; A (err_code e)]
   | RCrashed => L [A 2]
   | RNoData => L [A 3]
+  | RCancelled => L [A 5]
+  | RSockError => L [A 6; A 0]
   end%Z.
 
 (* kind 0: table built from the arrive ops; an untabulated datagram crashes (always a disagreement) *)
@@ -49,6 +55,7 @@ Fixpoint enc_table_of (ops : list sx) : list (bytes * bytes) :=
   match ops with
   | [] => []
   | L [A 1%Z; B p; B d] :: r => (p, d) :: enc_table_of r
+  | L [A 5%Z; B p; B d] :: r => (p, d) :: enc_table_of r
   | _ :: r => enc_table_of r
   end.
 
@@ -62,7 +69,10 @@ Definition dec_op (x : sx) : option (op (Q := bytes)) :=
   match x with
   | L (A 0%Z :: B d :: _) => Some (OpArrive d)
   | L (A 1%Z :: B p :: _) => Some (OpSend p)
+  | L (A 5%Z :: B p :: _) => Some (OpSend p)
   | L [A 3%Z] => Some OpRecv
+  | L [A 6%Z] => Some OpRecvCancel
+  | L [A 7%Z] => Some OpSockError
   | _ => None
   end.
 
